@@ -1,6 +1,6 @@
 
 // ===== appended by /verif (cfg(besok_jsonpath_rust_verif) only): access to private functions =====
-#[cfg(besok_jsonpath_rust_verif)]
+#[cfg(all(besok_jsonpath_rust_verif, feature = "vx_fn"))]
 pub(crate) mod verif_x {
     use super::*;
     pub(crate) fn regex<'a, T: Queryable>(l: State<'a, T>, r: State<'a, T>, substr: bool) -> State<'a, T> { super::regex(l, r, substr) }
